@@ -34,6 +34,7 @@ func Verif_C02_icmp4() {
 		P = append(P, V.Bytes("payload", pl)...)
 		wantDest = true
 	}
+	N.Noise(src, d.ReceiveProbe)
 	src.Next = P
 	resp, err := d.ReceiveProbe(100 * time.Millisecond)
 	V.Assert(err == nil, "C02/accepted")
@@ -73,6 +74,7 @@ func Verif_C02_icmp6() {
 		wantDest = true
 	}
 	V.Assume(!N.Src6(P).Is4In6())
+	N.Noise(src, d.ReceiveProbe)
 	src.Next = P
 	resp, err := d.ReceiveProbe(100 * time.Millisecond)
 	V.Assert(err == nil, "C02/accepted")
